@@ -1521,7 +1521,7 @@ where
                             self.extended_protocol_data_buffer.pop_front()
                         {
                             match protocol_data {
-                                ExtendedProtocolData::Parse { data, metadata } => {
+                                ExtendedProtocolData::Parse { data, metadata, .. } => {
                                     debug!("Have parse in extended buffer");
                                     let (parse, hash) = match metadata {
                                         Some(metadata) => metadata,
@@ -1961,7 +1961,7 @@ where
         if !self.prepared_statements_enabled {
             debug!("Anonymous parse message");
             self.extended_protocol_data_buffer
-                .push_back(ExtendedProtocolData::create_new_parse(message, None));
+                .push_back(ExtendedProtocolData::create_new_parse(message, None, None));
             return Ok(());
         }
 
@@ -1988,12 +1988,13 @@ where
         );
 
         self.prepared_statements
-            .insert(client_given_name, (new_parse.clone(), hash));
+            .insert(client_given_name.clone(), (new_parse.clone(), hash));
 
         self.extended_protocol_data_buffer
             .push_back(ExtendedProtocolData::create_new_parse(
                 new_parse.as_ref().try_into()?,
                 Some((new_parse.clone(), hash)),
+                Some(client_given_name),
             ));
 
         Ok(())
@@ -2140,16 +2141,15 @@ where
     /// plugin refused it: a later Bind must not run a refused statement from the cache.
     fn forget_buffered_prepared_statements(&mut self) {
         for data in self.extended_protocol_data_buffer.iter() {
-            // By the name the client gave it: the rewritten name is shared by all
-            // statements with the same text, earlier ones of this client included.
+            // By the name the client gave it: the rewritten name, which the buffered message
+            // carries, is shared by all statements with the same text, earlier ones of this
+            // client included.
             if let ExtendedProtocolData::Parse {
-                data,
-                metadata: Some(_),
+                client_given_name: Some(client_given_name),
+                ..
             } = data
             {
-                if let Ok(client_given_name) = Parse::get_name(data) {
-                    self.prepared_statements.remove(&client_given_name);
-                }
+                self.prepared_statements.remove(client_given_name);
             }
         }
     }
